@@ -36,11 +36,11 @@ structure VerificationOutcome where
 
 /-- the deprecated `revocation.Revocation`: `Validate(chain, signingTime)` as an oracle -/
 structure Client where
-  validate : List x509.Certificate → time.Time → List revocationresult.CertRevocationResult × Option GoLite.Err
+  validate : List x509.Certificate → time.Time → List (Option revocationresult.CertRevocationResult) × Option GoLite.Err
   deriving Inhabited
 
 def Client.Validate (c : Client) (chain : List x509.Certificate) (t : time.Time) :
-    List revocationresult.CertRevocationResult × Option GoLite.Err := c.validate chain t
+    List (Option revocationresult.CertRevocationResult) × Option GoLite.Err := c.validate chain t
 
 /-- the two fields of `verifier` the function reads (both nil-able interfaces) -/
 structure verifier where
